@@ -175,5 +175,55 @@ pub proof fn lemma_part3_faults<C: Ciphersuite>(own: Identifier<C>, r1: Map<Iden
     }
 }
 
+// ---------------------------------------------------------------------------------------------------
+// refresh_dkg_shares (C10) -- the check of the refreshing share of sender `id` against that sender's commitment RE-COMPLETED with the
+// identity in front: it fails exactly when the contribution is not a share of a polynomial with ZERO constant term committed to by the sender
+pub open spec fn refresh_r2_share_ok<C: Ciphersuite>(own: Identifier<C>, r1: Map<Identifier<C>, round1::Package<C>>, r2: Map<Identifier<C>, round2::Package<C>>,
+        id: Identifier<C>) -> Result<(), Error<C>>
+{ crate::vspec_refresh::spec_refresh_share_ok::<C>(own, r2[id].signing_share.0.0, r1[id].commitment.0@) }
+
+pub proof fn lemma_refresh_first_share_err_none_iff<C: Ciphersuite>(keys: Seq<Identifier<C>>, r1: Map<Identifier<C>, round1::Package<C>>,
+        r2: Map<Identifier<C>, round2::Package<C>>, own: Identifier<C>, from: int)
+    requires 0 <= from
+    ensures crate::vspec_refresh::spec_refresh_first_share_err::<C>(keys, r1, r2, own, from) is None
+        <==> (forall|k: int| from <= k < keys.len() ==> refresh_r2_share_ok::<C>(own, r1, r2, #[trigger] keys[k]) is Ok)
+    decreases keys.len() - from
+{
+    if from < keys.len() {
+        lemma_refresh_first_share_err_none_iff::<C>(keys, r1, r2, own, from + 1);
+        if crate::vspec_refresh::spec_refresh_first_share_err::<C>(keys, r1, r2, own, from) is None {
+            assert forall|k: int| from <= k < keys.len() implies refresh_r2_share_ok::<C>(own, r1, r2, #[trigger] keys[k]) is Ok by { if k > from { assert(from + 1 <= k); } }
+        } else if forall|k: int| from <= k < keys.len() ==> refresh_r2_share_ok::<C>(own, r1, r2, #[trigger] keys[k]) is Ok {
+            assert(refresh_r2_share_ok::<C>(own, r1, r2, keys[from]) is Ok);
+        }
+    }
+}
+
+pub proof fn lemma_refresh_shares_faults<C: Ciphersuite>(own: Identifier<C>, r1: Map<Identifier<C>, round1::Package<C>>, r2: Map<Identifier<C>, round2::Package<C>>)
+    requires r2.dom().finite()
+    ensures
+        forall|id: Identifier<C>| #[trigger] r2.contains_key(id) && refresh_r2_share_ok::<C>(own, r1, r2, id) is Err
+            ==> crate::vspec_refresh::spec_refresh_first_share_err::<C>(sorted_seq(r2.dom()), r1, r2, own, 0) is Some,
+        crate::vspec_refresh::spec_refresh_first_share_err::<C>(sorted_seq(r2.dom()), r1, r2, own, 0) is None
+            ==> forall|id: Identifier<C>| #[trigger] r2.contains_key(id) ==> refresh_r2_share_ok::<C>(own, r1, r2, id) is Ok,
+{
+    let keys = sorted_seq(r2.dom());
+    lemma_sorted_exists::<C>(r2.dom());
+    lemma_refresh_first_share_err_none_iff::<C>(keys, r1, r2, own, 0);
+    assert forall|id: Identifier<C>| #[trigger] r2.contains_key(id) && refresh_r2_share_ok::<C>(own, r1, r2, id) is Err
+            implies crate::vspec_refresh::spec_refresh_first_share_err::<C>(keys, r1, r2, own, 0) is Some by {
+        assert(keys.to_set().contains(id));
+        let w = choose|w: int| 0 <= w < keys.len() && keys[w] == id;
+        assert(refresh_r2_share_ok::<C>(own, r1, r2, keys[w]) is Err);
+    }
+    if crate::vspec_refresh::spec_refresh_first_share_err::<C>(keys, r1, r2, own, 0) is None {
+        assert forall|id: Identifier<C>| #[trigger] r2.contains_key(id) implies refresh_r2_share_ok::<C>(own, r1, r2, id) is Ok by {
+            assert(keys.to_set().contains(id));
+            let w = choose|w: int| 0 <= w < keys.len() && keys[w] == id;
+            assert(refresh_r2_share_ok::<C>(own, r1, r2, keys[w]) is Ok);
+        }
+    }
+}
+
 } // verus!
 }
